@@ -42,7 +42,7 @@ func (x *X) kindOf(t types.Type) kind {
 	if strings.TrimPrefix(t.String(), "*") == "net.Interface" {
 		return kIface
 	}
-	if t.String() == "*os.File" || t.String() == "*"+modPath+"lib/rsocks.rssock" || t.String() == "*"+modPath+"lib/rsocks.rrsock" {
+	if t.String() == "*os.File" || t.String() == "*"+modPath+"lib/rsocks.rssock" || t.String() == "*"+modPath+"lib/rsocks.rrsock" || t.String() == modPath+"lib/client/dclient.ssock" {
 		return kSock
 	}
 	if t.String() == "*net.IPNet" || t.String() == "net.IPNet" {
